@@ -80,7 +80,14 @@ impl Pattern {
     /// Allows to specify case sensitivity
     pub fn regex_with(pattern: &str, opts: &PatternOpts) -> Result<Pattern, PatternError> {
         let pattern = pattern.trim_start_matches('^');
-        let pattern = pattern.trim_end_matches('$');
+        // strip the end anchor, but not an escaped (literal) dollar sign
+        let mut pattern = pattern;
+        while let Some(head) = pattern.strip_suffix('$') {
+            if head.chars().rev().take_while(|c| *c == '\\').count() % 2 == 1 {
+                break;
+            }
+            pattern = head;
+        }
         let pattern = pattern.to_string();
 
         let anchored_regex = "^".to_string() + &pattern + "$";
